@@ -209,7 +209,7 @@ impl Field {
                     t.num(width_fields.get(arr_name).unwrap().modifier().unwrap_or(0)),
                 ))
             }
-            Field::Integral { width: 1, .. } => quote!($expr != 0),
+            Field::Integral { width: 1, fixed_val: None, .. } => quote!($expr != 0),
             Field::Integral { .. } => quote!($expr),
             Field::EnumRef { ty, width, .. } => {
                 quote!($ty.from$(Integral::fitting(*width).capitalized())($expr))
